@@ -44,9 +44,13 @@ def run_one(m: dict, tier: str, with_tests: bool, keep: bool = False) -> dict:
             out["error"] = "does not import: " + r.stderr[-300:]
             return out
         if with_tests:
-            t = subprocess.run(["/venv/bin/python", "-m", "pytest", "-q", "-x", "-p", "no:cacheprovider", *UNIT_TESTS],
-                               env={**os.environ, "PYTHONPATH": src}, capture_output=True, text=True, cwd="/repo", timeout=1800)
-            out["unit_tests"] = "pass" if t.returncode == 0 else "FAIL: " + t.stdout[-400:]
+            try:
+                t = subprocess.run(["/venv/bin/python", "-m", "pytest", "-q", "-x", "-p", "no:cacheprovider", "--timeout=120", *UNIT_TESTS],
+                                   env={**os.environ, "PYTHONPATH": src}, capture_output=True, text=True, cwd="/repo", timeout=900)
+                failed = [ln for ln in t.stdout.splitlines() if ln.startswith("FAILED")]
+                out["unit_tests"] = "pass" if t.returncode == 0 else "FAIL: " + (failed[0] if failed else t.stdout[-200:])
+            except subprocess.TimeoutExpired:
+                out["unit_tests"] = "FAIL: timeout"
         for prop in m["props"]:
             env = {**os.environ, "KIO_VERIF_SRC": src, "KIO_VERIF_EVIDENCE_DIR": os.path.join(tmp, "ev"),
                    "KIO_VERIF_REPLAY_DIR": os.path.join(tmp, "rp")}
